@@ -6,6 +6,6 @@ WT=/tmp/seedcheck.$$
 git -C /repo worktree add -q --detach "$WT" HEAD || exit 2
 git -C "$WT" apply "$D/patch.diff" || { echo "PATCH DOES NOT APPLY"; git -C /repo worktree remove --force "$WT"; exit 2; }
 cd /verif && VERIF_REPO="$WT" ./check "$P" --tier "$T"; RC=$?
-git -C /repo worktree remove --force "$WT"
+git -C /repo worktree remove --force "$WT"; git -C /verif checkout -- lean/SaVerif/Gen 2>/dev/null
 echo "seed_check $D $P rc=$RC"
 exit $RC
